@@ -54,6 +54,9 @@ def run(W, chk):
     chk.expect(okst, "PROV-claim-start", "compute_start_from_epoch_for_address", "next claim starts at last claimed + 1",
                "claim start epoch <- %s" % [show(e.extra.get("ret") or EMPTY)[:200] for e in st], where(st[0]) if st else A.entry)
 
+    # ---- one reward computation per LP denom: the denoms iterated are de-duplicated (no epoch paid twice)
+    uniq_denoms(chk, A, "Claim")
+
     # ---- window cuts
     ge_last = PredTrue("until >= last_claimed", lambda pn, pa: pn == "ge" and origin_match(pa[0], r"^(Query\(CurrentEpoch\)\.id|msg\.Claim\.until_epoch)$")
                        and origin_match(pa[1], r"^Store\(LAST_CLAIMED_EPOCH\)$"))
@@ -109,3 +112,12 @@ def run(W, chk):
                "FARMS.update reachable without the budget check (guard found: %s)" % bool(pol.hits), where(fw[0]) if fw else B.entry)
 
 
+
+
+def uniq_denoms(chk, A, lab):
+    loops = [e for e in A.calls(r"IntoIterator.*::into_iter$") if re.search(r"(farm::commands::claim|queries::query_rewards)$", e.fn)
+             and all_origins(vfield(e.extra["dargs"][0], "[*]")) == {"Store(POSITIONS).lp_asset.denom"}]
+    ok = bool(loops) and all("#uniq" in A.d(e.extra["dargs"][0]).fields for e in loops)
+    chk.expect(ok, "UNIQ-lp-denoms", lab, "rewards are computed once per distinct LP denom (the iterated denoms come from a set)",
+               "the LP denoms iterated for reward computation are not de-duplicated (%d loops): a user with two positions in one LP token "
+               "is paid the same epochs twice" % len(loops), where(loops[0]) if loops else A.entry)
